@@ -7,6 +7,7 @@ EXPLANATION = (
 
 
 def check(ctx, prog):
+    propagators.rule_prop_effects(ctx, prog)  # a filtering function never stores into its parameters (a view of the problem's table: the next call sees another constraint)
     engine.rule_flags_writers(ctx, prog, thorough=ctx.tier == "thorough")
     ctx.rule("R-PUSH-POP")
     branching.check_choice_points(ctx, prog)
